@@ -3,10 +3,14 @@ Line-protocol driver: reads commands on stdin, runs the executable model,
 prints one canonical result line (and a state line) per command.
 -/
 import SC.Proto
+import SC.Buffer
 open SC SC.Proto
 
 structure Drv where
   st : State
+  /-- L2 machine (buffered class), when the program runs in buffered mode -/
+  bst : Option B.State := none
+  flen : List ((Int × Nat) × Nat) := []
   /-- handle number ↦ node identity, in order of first appearance -/
   hmap : Array Nat := #[]
 
@@ -40,6 +44,85 @@ def showState (s : State) : String :=
   let mem := String.join (s.objs.zipIdx.map (fun p => s!" o{p.2}={showVal p.1.root}"))
   s!"st{st} | mem{mem}"
 
+def showBState (s : B.State) : String :=
+  let stores := s.stores.toArray.qsort (fun a b => a.1 < b.1) |>.toList
+  let st := String.join (stores.map (fun p => s!" r{p.1}={showVal p.2}"))
+  let ents := (s.entries.map (·.1)).toArray.qsort (· < ·) |>.toList
+  s!"st{st} | buf size={s.size} cap={s.capacity} files={ents}"
+
+def errName (e : Err) : String :=
+  match e with
+  | .other n => if n.startsWith "BufferedError:" then "BufferedError " ++ (n.drop 14).toString else n
+  | e => e.name
+
+def bstep (d : Drv) (b : B.State) (toks : List String) : Drv × List String :=
+  let fin (b' : B.State) (first : String) : Drv × List String :=
+    ({ d with bst := some b' }, [first, showBState b'])
+  let finE (r : B.State × Option Err) : Drv × List String :=
+    match r.2 with
+    | some e => fin r.1 s!"err {errName e}"
+    | none => fin r.1 "ok"
+  match toks with
+  | "open" :: _ :: kind :: res :: rest =>
+    match res.toNat? with
+    | some r =>
+      let data := match rest with
+        | [] => some none
+        | _ => (parseVal rest).map (fun p => some p.1)
+      match data with
+      | none => (d, ["bad-op"])
+      | some data =>
+        let (b', e) := B.openObj b (kind == "d") r data
+        match e with
+        | some e => fin b' s!"err {e.name}"
+        | none => fin b' s!"ok o{b'.objs.length - 1}"
+    | none => (d, ["bad-op"])
+  | "ext" :: res :: rest =>
+    match res.toNat?, parseVal rest with
+    | some r, some (v, _) => fin (B.extWrite b r v) "ok"
+    | _, _ => (d, ["bad-op"])
+  | ["extdel", res] =>
+    match res.toNat? with
+    | some r => fin (b.deleteFile r) "ok"
+    | none => (d, ["bad-op"])
+  | ["enter", o] =>
+    match (rest1 o).toNat? with
+    | some oi => fin (B.enterObj b oi) "ok"
+    | none => (d, ["bad-op"])
+  | ["exit", o] =>
+    match (rest1 o).toNat? with
+    | some oi => finE (B.exitObj b oi)
+    | none => (d, ["bad-op"])
+  | ["center"] => finE (B.enterCls b none)
+  | ["center", c] =>
+    match c.toNat? with
+    | some c => finE (B.enterCls b (some c))
+    | none => (d, ["bad-op"])
+  | ["cexit"] => finE (B.exitCls b)
+  | ["setcap", c] =>
+    match c.toNat? with
+    | some c => finE (B.setCapacity b c)
+    | none => (d, ["bad-op"])
+  | "call" :: h :: rest =>
+    let hd : Option Handle :=
+      if h.startsWith "o" then (rest1 h).toNat?.map Handle.root
+      else if h.startsWith "h" then
+        match (rest1 h).toNat? with
+        | some k => (d.hmap[k]?).map Handle.node
+        | none => none
+      else none
+    match hd, parseOp rest with
+    | some h, some op =>
+      let (b', out) := B.call b h op
+      let d1 := { d with bst := some b' }
+      match out with
+      | .error e => (d1, [s!"err {errName e}", showBState b'])
+      | .ok o =>
+        let (d2, str) := showOut d1 o
+        (d2, [s!"ok {str}", showBState b'])
+    | _, _ => (d, ["bad-op"])
+  | _ => (d, ["bad-op"])
+
 def parseHandle (d : Drv) (tok : String) : Option Handle :=
   if tok.startsWith "o" then (rest1 tok).toNat?.map Handle.root
   else if tok.startsWith "h" then
@@ -48,12 +131,22 @@ def parseHandle (d : Drv) (tok : String) : Option Handle :=
     | none => none
   else none
 
-def step (d : Drv) (line : String) : Drv × List String :=
-  let toks := (line.splitOn " ").filter (· ≠ "")
+def stepL1 (d : Drv) (toks : List String) : Drv × List String :=
   match toks with
   | [] => (d, [])
   | "#" :: _ => (d, [])
-  | ["reset"] => ({ st := State.empty d.st.fams }, ["ok"])
+  | ["reset"] => ({ st := State.empty d.st.fams, flen := d.flen }, ["ok"])
+  | ["flt", n, dn, l] =>
+    match parseInt? n, dn.toNat?, l.toNat? with
+    | some n, some dn, some l => ({ d with flen := ((n, dn), l) :: d.flen }, ["ok"])
+    | _, _, _ => (d, ["bad-op"])
+  | ["breset", fam, strat] =>
+    match fam.toNat? with
+    | some f =>
+      let fm := d.st.fams.getD f default
+      let st : Buffering := if strat == "mem" then .sharedMemory else .serialized
+      ({ st := State.empty d.st.fams, flen := d.flen, bst := some (B.State.init fm st d.flen) }, ["ok"])
+    | none => (d, ["bad-op"])
   | ["fam", dv, lv] =>
     ({ d with st := { d.st with fams := d.st.fams ++ [⟨parseValidators dv, parseValidators lv⟩] } }, ["ok"])
   | "open" :: fam :: kind :: res :: rest =>
@@ -92,6 +185,15 @@ def step (d : Drv) (line : String) : Drv × List String :=
         (d2, [s!"ok {str}", showState s'])
     | _, _ => (d, ["bad-op"])
   | _ => (d, ["bad-op"])
+
+def step (d : Drv) (line : String) : Drv × List String :=
+  let toks := (line.splitOn " ").filter (· ≠ "")
+  match d.bst, toks with
+  | some b, t :: ts =>
+    if t == "reset" || t == "breset" || t == "flt" || t == "fam" || t == "#" then stepL1 d toks
+    else bstep d b (t :: ts)
+  | _, _ => stepL1 d toks
+
 
 partial def loop (h : IO.FS.Stream) (out : IO.FS.Stream) (d : Drv) : IO Unit := do
   let line ← h.getLine
